@@ -120,9 +120,6 @@ impl Wrap {
             Wrap::Map => "map-lambda",
         }
     }
-    pub fn is_closure(self) -> bool {
-        matches!(self, Wrap::FnClosure | Wrap::PuClosure | Wrap::ForEach | Wrap::Map)
-    }
     /// wrap `inner` (one or more statements) into one more level of nesting; `n` makes names unique
     pub fn apply(self, n: usize, inner: &str) -> String {
         let i = ind(inner);
